@@ -119,6 +119,33 @@ def run(ctx):
     # Q-limit loop as it entered it, otherwise the OPF constraints are built on a demand reduced by the clamped generators
     from rules.C04 import rule_qlim
     rule_qlim(ctx)
+    RN = "NULLABLE-FLAG"
+    ctx.rule(RN, "load / sgen / storage.controllable is an optional, nullable column (schema): _select_is_elements_numba fills NaN with "
+                 "False before the cast to bool (NaN casts to True: a load without a flag would become dispatchable in rundcopp, which does "
+                 "not run the normalisation of _check_necessary_opf_parameters)")
+    fsel = ctx.repo.func("pandapower.auxiliary:_select_is_elements_numba")
+    k = 0
+    for c in ast.walk(fsel.node):
+        if isinstance(c, ast.Call) and isinstance(c.func, ast.Attribute) and c.func.attr == "astype" and ".controllable" in norm(c.func.value, 120):
+            k += 1
+            ok = ".fillna(False)" in norm(c.func.value, 120)
+            ctx.ob(RN, f"pandapower.auxiliary::_select_is_elements_numba::controllable-cast#{k}", ok, f"`{norm(c, 90)}`", fsel.loc(c))
+    if k < 1:
+        ctx.fail("_select_is_elements_numba: cast of the controllable column not found")
+    # the branch rating the OPF constrains is the one the result loading is measured against
+    from ppsa.obligations import run_cases, Case
+    from rules._branch_cases import builder_cases
+    RR = "RATING"
+    ctx.rule(RR, "ppc['branch'][:, RATE_A] of lines, transformers and three-winding transformers has the unit of an apparent power, scales "
+                 "with parallel and depends on the rating columns the loading results divide by (max_i_ka*df, sn_mva*df, "
+                 "max_loading_percent): a rating without df lets a converged OPF exceed max_loading_percent")
+    cs = []
+    for c in builder_cases():
+        sk = [k for k in c.sinks if k.where.endswith("RATE_A")]
+        if sk:
+            cs.append(Case(c.name, c.fq, sk, args=c.args, options=c.options, schema_cols=c.schema_cols, doc=c.doc))
+    run_cases(ctx, RR, cs, aspects=("units", "par", "needs", "data_needs"))
+    ctx.require_min(RR, 3)
 
 
 def rule_dcline_sides(ctx):
@@ -219,6 +246,8 @@ def variants(repo):
         V("partial limit assignment chosen with all()", bg, in_function("_check_gen_vm_limits", lambda s: s.replace("        if np.any(v_max_bound):", "        if np.all(v_max_bound):", 2).replace("    if np.all(v_max_bound):\n        bound_gens", "    if np.any(v_max_bound):\n        bound_gens", 1)), "PARTIAL-ELSE"),
         V("dc flow bound sign", "pandapower/pypower/opf_setup.py", replace_once("upt = branch[il, RATE_A] / baseMVA + Pfinj[il]", "upt = branch[il, RATE_A] / baseMVA - Pfinj[il]"), "DC-FLOW-LIMIT"),
         V("dcline to-side gen with from-side q limit", "pandapower/auxiliary.py", in_function("_add_dcline_gens", replace_once("max_q_mvar=dctab.max_q_to_mvar", "max_q_mvar=dctab.max_q_from_mvar")), "DCLINE-SIDE"),
+        V("controllable NaN cast to True", "pandapower/auxiliary.py", replace_once("controllable = net[element_table].controllable.fillna(False).values.astype(bool)", "controllable = net[element_table].controllable.values.astype(bool)"), "NULLABLE-FLAG"),
+        V("trafo rating without derating factor", "pandapower/build_branch.py", in_function("_calc_trafo_parameter", replace_once("branch[f:t, RATE_A] = max_load / 100. * sn_mva * df * parallel", "branch[f:t, RATE_A] = max_load / 100. * sn_mva * parallel")), "RATING"),
         V("start power flow restores only the active demand", "pandapower/pf/run_newton_raphson_pf.py", replace_once("        bus[:, [PD, QD]] = bus_backup_p_q\n", "        bus[:, PD] = bus_backup_p_q[:, 0]\n"), "QLIM-LOOP"),
         V("vmin mask copy-paste", bg, replace_once("ppc[\"bus\"][gen_buses[~v_min_bound], VMIN]", "ppc[\"bus\"][gen_buses[~v_max_bound], VMIN]"), "MASKPAIR"),
         V("load q limits not swapped", bg, in_function("add_q_constraints", replace_once('ppc["gen"][f:t, QMAX] = -tab["min_q_mvar"].values[is_element] + delta', 'ppc["gen"][f:t, QMIN] = -tab["min_q_mvar"].values[is_element] + delta')), "load.min_q_mvar->QMAX"),
